@@ -235,6 +235,8 @@ pub fn run(tier: Tier) -> Report {
         rep.machinery_errors.push(format!("{e} (the mirrored explorations were skipped; the real-loop explorations above were run)"));
         return rep;
     }
+    // the mirror is also bound behaviourally: lock-step runs against the real loop
+    crate::realx::run_lockstep(&mut rep, tier.is_quick());
     let lim = Limits {
         wall: Duration::from_secs(if tier.is_quick() { 40 } else { 2400 }),
         ..Default::default()
